@@ -63,6 +63,16 @@ def run(chk):
         chk.case(''.join(e['i']))
     verdicts = S.validate(chk, bad + exps, timeout=3000)
     S.judge(chk, verdicts, CLAUSES, 'parse outcome must be a tree or a diagnostic; no hang, no leak')
+    # many more random long strings and mutants: the C06 clause needs no side condition, so these are validated without
+    # running the reference machine on them
+    more = S.random_strings(rng, S.ST + S.SC_EXTRA + S.SC, 4000 if quick else 60000, 5, 40)
+    more += S.mutations(rng, docs, 20 if quick else 200, S.SC + S.SC_EXTRA)
+    more = list(dict.fromkeys(more))
+    exps2 = obs.experiments(more)
+    for e in exps2:
+        chk.case(''.join(e['i']))
+    S.judge(chk, S.validate(chk, exps2, timeout=3000, label='trace-light', light=True), CLAUSES,
+            'parse outcome must be a tree or a diagnostic; no hang, no leak')
     chk.exhaustive = False
     chk.assumptions += ['diagnostic set = {EOFError, TypeError, AssertionError}; which one is raised is not constrained',
                         'hang watchdog %.0fs per parse' % obs.HANG_S,
